@@ -114,6 +114,48 @@ pub fn check_pair(sh: &mut Shard, r: &mut Rng, a: &IG, b: &IG, lat: &Lat, verbos
     same(sh, "symmetry.concrete", c_ab, c_ba, json!({}));
     same(sh, "enum_vs_concrete", d_ab, c_ab, json!({}));
     same(sh, "legacy_vs_new", c_ab, l_ab, json!({}));
+    // one operand concrete, the other wrapped in the enum (both trait families, both sides), and the Coord forms
+    let mixed: Vec<(&str, Result<f64, String>)> = vec![
+        ("distance(concrete, &Geometry)", call(|| with_geom!(&ga, x => Euclidean.distance(x, &gb)))),
+        ("distance(&Geometry, concrete)", call(|| with_geom!(&gb, y => Euclidean.distance(&ga, y)))),
+        ("concrete.euclidean_distance(&Geometry)", call(|| with_geom!(&ga, x => x.euclidean_distance(&gb)))),
+        ("Geometry.euclidean_distance(concrete)", call(|| with_geom!(&gb, y => ga.euclidean_distance(y)))),
+    ];
+    for (name, got) in mixed {
+        let g = judge(sh, "distance.mixed", a, b, got);
+        same(sh, "mixed_vs_concrete", c_ab, g, json!({"form": name}));
+    }
+    {
+        use geo::{Coord, Line};
+        let mut coord_forms: Vec<(&str, Result<f64, String>)> = vec![];
+        match (&ga, &gb) {
+            (Geometry::Point(p), Geometry::Point(q)) => {
+                let (p, q): (Coord<f64>, Coord<f64>) = (p.0, q.0);
+                coord_forms.push(("distance(Coord, Coord)", call(|| Euclidean.distance(p, q))));
+                coord_forms.push(("Coord.euclidean_distance(Coord)", call(|| p.euclidean_distance(&q))));
+            }
+            (Geometry::Point(p), Geometry::Line(l)) | (Geometry::Line(l), Geometry::Point(p)) => {
+                let (p, l): (Coord<f64>, Line<f64>) = (p.0, *l);
+                coord_forms.push(("distance(Coord, &Line)", call(|| Euclidean.distance(p, &l))));
+                coord_forms.push(("distance(&Line, Coord)", call(|| Euclidean.distance(&l, p))));
+                coord_forms.push(("Coord.euclidean_distance(Line)", call(|| p.euclidean_distance(&l))));
+                coord_forms.push(("Line.euclidean_distance(Coord)", call(|| l.euclidean_distance(&p))));
+            }
+            (Geometry::LineString(x), Geometry::LineString(y)) if x.0.len() >= 2 && y.0.len() >= 2 => {
+                // the public brute-force helper: documented as the minimum distance between two DISJOINT line strings
+                if !d2.is_zero() {
+                    #[allow(deprecated)]
+                    coord_forms.push(("nearest_neighbour_distance(LineString, LineString)", call(|| geo::algorithm::euclidean_distance::nearest_neighbour_distance(x, y))));
+                }
+            }
+            _ => {}
+        }
+        for (name, got) in coord_forms {
+            sh.class(&format!("coord_form:{name}"));
+            let g = judge(sh, "distance.coord_form", a, b, got);
+            same(sh, "coord_form_vs_concrete", c_ab, g, json!({"form": name}));
+        }
+    }
     for (which, base) in [(0, a), (1, b)] {
         for (name, alt) in respellings(r, base) {
             let galt = alt.to_geo(lat);
